@@ -363,10 +363,15 @@ def run_history(h):
                 v = [x] if x else []
         else:
             sh.apply(op)
+            if ans == "ERR":
+                if contract:
+                    v = [("operation-raises", f"{op_line(op)} raises")]
+                else:
+                    spec_ok = False       # what a raising operation leaves behind is not fixed by the statement
             if h.mode == "full":
                 req.append("query"); real.append(query_real(m))
                 if spec_ok:
-                    v = spec_violations(m, sh, contract)
+                    v = v + spec_violations(m, sh, contract)
         if v and not viols:
             viols = [(i, v)]
     if h.mode != "full":
@@ -463,33 +468,31 @@ def gen_lean(count_by_id, aliased):
 
 # ------------------------------------------------------------------ generators
 def exhaustive(L, fac=None, tag="exhaustive"):
-    out = []
+    """Every maximal history of length L over the instantiated alphabet (generator), full mode: every
+    query after every operation, so all shorter histories are covered as prefixes."""
     def rec_max(prefix, sh, depth):
         if depth == L:
-            out.append(Hist(prefix, fac, "full", tag)); return
+            yield Hist(prefix, fac, "full", tag); return
         for op in concrete_ops(sh.live, sh.next):
             s2 = sh.copy()
             s2.apply(op)
-            rec_max(prefix + [op], s2, depth + 1)
-    rec_max([], Shadow(fac), 0)
-    return out
+            yield from rec_max(prefix + [op], s2, depth + 1)
+    yield from rec_max([], Shadow(fac), 0)
 
 
 def exhaustive_nodes(L, Lmin):
     """Every history of length Lmin+1..L over the alphabet, as its own case with ONE full query at the
     end (mode sparse): the states of all longer histories, without the intermediate queries."""
-    out = []
     def rec(prefix, sh, depth):
         if depth > Lmin:
-            out.append(Hist(prefix, None, "sparse", "exhaustive-final"))
+            yield Hist(prefix, None, "sparse", "exhaustive-final")
         if depth == L:
             return
         for op in concrete_ops(sh.live, sh.next):
             s2 = sh.copy()
             s2.apply(op)
-            rec(prefix + [op], s2, depth + 1)
-    rec([], Shadow(), 0)
-    return out
+            yield from rec(prefix + [op], s2, depth + 1)
+    yield from rec([], Shadow(), 0)
 
 
 def rand_spec(rng, offcontract):
@@ -576,37 +579,40 @@ def lookup_patterns(rng, n):
 UNFAITHFUL = [{0: [1]}, {0: [1, 0]}, {0: [2]}, {0: [1, 0], 1: [2, 1, 0]}, {1: [0]}, {0: [0, 0, 1], 1: [1, 2]}]
 
 
+def bounds(chk):
+    """(L full-query exhaustive, [(fac, L)] for unfaithful factories, L7 final-query exhaustive or None, n random)"""
+    if chk.quick:
+        return 4, [(f, 3) for f in UNFAITHFUL[:2]], None, 150
+    return 6, [(f, 5) for f in UNFAITHFUL[:2]] + [(f, 4) for f in UNFAITHFUL[2:4]], 7, 2000
+
+
 def histories(chk):
-    """Exhaustive over the instantiated alphabet to length L, then seeded random long histories."""
-    L = 4 if chk.quick else 6
-    hs = exhaustive(L)
-    n_exh = len(hs)
-    La = 3 if chk.quick else 4
-    hs_any = []
-    for fac in UNFAITHFUL[:2] if chk.quick else UNFAITHFUL[:4]:
-        hs_any += exhaustive(La, fac, "exhaustive-anyattr")
-    hs += hs_any
-    L7 = None
-    if not chk.quick:
-        L7 = 7
-        hs += exhaustive_nodes(L7, L)
+    """Exhaustive over the instantiated alphabet to length L, then seeded random long histories (generator)."""
+    L, anyf, L7, n = bounds(chk)
+    yield from exhaustive(L)
+    for fac, La in anyf:
+        yield from exhaustive(La, fac, "exhaustive-anyattr")
     rng = chk.rng.fork("c14-random")
-    n = 150 if chk.quick else 2000
     for _ in range(n):
-        hs.append(rand_history(rng, "full"))
+        yield rand_history(rng, "full")
     for _ in range(n):
-        hs.append(rand_history(rng, "sparse"))
-    hs += lookup_patterns(rng, n // 3)
+        yield rand_history(rng, "sparse")
+    yield from lookup_patterns(rng, n // 3)
     for _ in range(n // 3):
-        hs.append(rand_history(rng, rng.choice(["full", "sparse"]), rng.choice(UNFAITHFUL)))
+        yield rand_history(rng, rng.choice(["full", "sparse"]), rng.choice(UNFAITHFUL))
     for _ in range(n // 3):
-        hs.append(rand_history(rng, rng.choice(["full", "sparse"]), rng.choice(UNFAITHFUL + [None, None]), offcontract=True))
+        yield rand_history(rng, rng.choice(["full", "sparse"]), rng.choice(UNFAITHFUL + [None, None]), offcontract=True)
     for _ in range(n // 5):
-        hs.append(rand_history(rng, rng.choice(["full", "sparse"]), None, alias=True))
-    return hs, n_exh, L, len(hs_any), La, L7
+        yield rand_history(rng, rng.choice(["full", "sparse"]), None, alias=True)
+    if L7:
+        yield from exhaustive_nodes(L7, L)
+
+
+CHUNK_LINES = 150000
 
 
 def run(chk):
+    from concurrent.futures import ThreadPoolExecutor
     quiet_bptk_logging()
     count_by_id = probe_count_by_id()
     alias = probe_alias()
@@ -622,71 +628,91 @@ def run(chk):
                        "agent factories are registered before the first operation and not re-registered (register_agent_factory empties the type's id list)",
                        "callers do not mutate the list returned by agent_ids (it is the registry's own list: C14_alias_witness)",
                        "random.random() returns a value in [0, 1]"]
-    hs, n_exh, L, n_any, La, L7 = histories(chk)
+    L, anyf, L7, _ = bounds(chk)
     chk.cov["rule"] = (f"all histories of length {L} over the alphabet {{create a, create b, delete oldest, delete newest, "
                        f"delete missing, configure, reset, set-state oldest/newest}} instantiated on the live population "
-                       f"({n_exh} histories, every query compared after every operation); the same to length {La} with factories whose agent_type differs from the key ({n_any}); "
+                       f"(every query compared after every operation); the same to length {'/'.join(str(l) for _, l in anyf)} with {len(anyf)} factories whose agent_type differs from the key; "
                        + (f"every history of length {L + 1}..{L7} with all queries at its end; " if L7 else "")
                        + "seeded random histories of length 5..40 in two modes (all queries after every operation / queries as sparse operations incl. "
                        "lookups of never-, no-longer- and again-alive ids and random_agents with scripted draws), lookup patterns around every clearing "
                        "operation with the same agent counts, Model.configure, unfaithful factories, unregistered types, caller appends; "
                        "a case is the canonical op sequence; non-trivial = contains at least one deletion/configure/reset")
-    chk.cov["exhaustive_histories"] = n_exh
-    chk.cov["exhaustive_anyattr_histories"] = n_any
     chk.cov["exhaustive"] = False
-    # real side
-    req, real, owner = [f"cfg countById {1 if count_by_id else 0}", f"cfg idsAliased {1 if alias['idsAliased'] else 0}"], ["ok", "ok"], [None, None]
-    first_spec_fail = None
-    kinds, tags, skipped_rnd, n_rnd = {}, {}, 0, 0
-    for hi, h in enumerate(hs):
-        rq, rl, viols = run_history(h)
-        req += rq; real += rl; owner += [hi] * len(rq)
-        for op in h.ops:
-            kk = op[0] + ("-" + op[1] if op[0] == "q" else "")
-            kinds[kk] = kinds.get(kk, 0) + 1
-        n_rnd += sum(1 for o in h.ops if o[0] == "q" and o[1] == "rnd")
-        tags[h.tag] = tags.get(h.tag, 0) + 1
-        chk.case(tuple(h.lines()) + (h.mode,), nontrivial=any(o[0] in ("delete", "configure", "configureall", "reset") for o in h.ops),
-                 sample=h.lines() if len(h.ops) > 5 and h.tag.startswith("random") and hi % 7 == 0 else None)
-        if viols and first_spec_fail is None:
-            first_spec_fail = (h, viols[0])
-    skipped_rnd = sum(1 for x in real if x is None)
+    head = [f"cfg countById {1 if count_by_id else 0}", f"cfg idsAliased {1 if alias['idsAliased'] else 0}"]
+    st = {"spec": None, "contract": None, "off": None, "rnd": None, "n": 0, "skipped": 0, "n_rnd": 0}
+    kinds, tags = {}, {}
+
+    def compare(fut, req, real, owner):
+        """diff one chunk (model replies vs real replies); keeps the first difference of each class"""
+        model = fut.result()
+        alld = [i for i, (a, b) in enumerate(zip(model, real)) if b is not None and a != b]
+        if len(model) != len(real):
+            alld.append(min(len(model), len(real)))
+        for i in alld:
+            h = owner[i] if i < len(owner) else None
+            info = {"history": h.replay() if h is not None else None, "request": req[i] if i < len(req) else None,
+                    "request_context": req[max(0, i - 12):i + 1],
+                    "model": model[i] if i < len(model) else None, "impl": real[i] if i < len(real) else None}
+            # WHICH agents random_agents returns is not fixed by the statement (only: live ids of the type, min(num, n) of
+            # them — checked by the reference on every such query): a different but valid use of random() is reported only
+            cls = "rnd" if i < len(req) and req[i].startswith("q rnd") else ("contract" if h is None or h.contract() else "off")
+            if st[cls] is None:
+                st[cls] = info
+
+    pending = None
+    req, real, owner = list(head), ["ok", "ok"], [None, None]
+    with ThreadPoolExecutor(max_workers=1) as ex:
+        def flush():
+            nonlocal pending, req, real, owner
+            if pending is not None:
+                compare(*pending)
+            pending = (ex.submit(drive, "C14", req), req, real, owner)
+            req, real, owner = list(head), ["ok", "ok"], [None, None]
+        for hi, h in enumerate(histories(chk)):
+            rq, rl, viols = run_history(h)
+            req += rq; real += rl; owner += [h] * len(rq)
+            for op in h.ops:
+                kk = op[0] + ("-" + op[1] if op[0] == "q" else "")
+                kinds[kk] = kinds.get(kk, 0) + 1
+                if kk == "q-rnd":
+                    st["n_rnd"] += 1
+            st["skipped"] += sum(1 for x in rl if x is None)
+            tags[h.tag] = tags.get(h.tag, 0) + 1
+            st["n"] += 1
+            chk.case(tuple(h.lines()) + (h.mode,), nontrivial=any(o[0] in ("delete", "configure", "configureall", "reset") for o in h.ops),
+                     sample=h.lines() if len(h.ops) > 5 and h.tag.startswith("random") and hi % 7 == 0 else None)
+            if viols and st["spec"] is None:
+                st["spec"] = (h, viols[0])
+            if len(req) >= CHUNK_LINES:
+                flush()
+        flush()
+        compare(*pending)
     chk.cov["op_distribution"] = kinds
     chk.cov["history_kinds"] = tags
-    chk.cov["random_agents_scripted"] = {"queries": n_rnd, "not_comparable_oracle_bypassed": skipped_rnd}
-    if not chk.cov["samples"]:
-        chk.cov["samples"].append(hs[0].lines())
-    model = drive("C14", req)
-    chk.cov["traces_validated_against_impl"] = len(hs)
-    alld = [i for i, (a, b) in enumerate(zip(model, real)) if b is not None and a != b]
-    # WHICH agents random_agents returns is not fixed by the statement (only: live ids of the type, min(num, n) of them —
-    # checked by the reference on every such query); a different but valid use of random() is reported, never a finding
-    rnd_diffs = [i for i in alld if req[i].startswith("q rnd")]
-    diffs = [i for i in alld if not req[i].startswith("q rnd")]
-    chk.cov["random_agents_scripted"]["model_matches_impl"] = not rnd_diffs
-    if rnd_diffs:
-        i = rnd_diffs[0]
-        chk.cov["random_agents_scripted"]["first_difference"] = {"request": req[i], "model": model[i], "impl": real[i]}
-    if len(model) != len(real):
-        diffs.append(min(len(model), len(real)))
-    contract_diff = next((i for i in diffs if owner[i] is None or hs[owner[i]].contract()), None)
-    off_diff = next((i for i in diffs if owner[i] is not None and not hs[owner[i]].contract()), None)
-    chk.notes["offcontract_model_matches_impl"] = off_diff is None
-    if off_diff is not None:
+    chk.cov["exhaustive_histories"] = tags.get("exhaustive", 0)
+    chk.cov["exhaustive_anyattr_histories"] = tags.get("exhaustive-anyattr", 0)
+    chk.cov["exhaustive_final_query_histories"] = tags.get("exhaustive-final", 0)
+    chk.cov["random_agents_scripted"] = {"queries": st["n_rnd"], "not_comparable_oracle_bypassed": st["skipped"],
+                                         "model_matches_impl": st["rnd"] is None}
+    if st["rnd"] is not None:
+        chk.cov["random_agents_scripted"]["first_difference"] = st["rnd"]
+    chk.cov["traces_validated_against_impl"] = st["n"]
+    chk.notes["offcontract_model_matches_impl"] = st["off"] is None
+    if st["off"] is not None:
         # behaviour under a broken factory contract / unregistered type / caller mutation is not fixed by the statement:
         # reported, never a finding
-        chk.notes["offcontract_first_difference"] = {"history": hs[owner[off_diff]].replay(), "request": req[off_diff],
-                                                     "model": model[off_diff] if off_diff < len(model) else None, "impl": real[off_diff]}
+        chk.notes["offcontract_first_difference"] = st["off"]
     # witnesses of the factory-contract assumption, replayed on the real code (documentation of the assumption, not a defect)
     wit = {}
     for name, fac, ops, expect in ANYATTR_WITNESSES:
         h = Hist(ops, fac, "sparse", "witness")
         rq, rl, _ = run_history(h)
-        md = drive("C14", rq)
+        md = drive("C14", head + rq)
         wit[name] = {"fac": fac, "ops": [op_line(o) for o in ops], "impl": rl[-1], "model_agrees": md[-1] == rl[-1],
                      "as_stated_in_Lean": (expect is None or expect == rl[-1])}
     chk.notes["anyattr_witnesses_on_real_code"] = wit
     # --- decide
+    first_spec_fail = st["spec"]
     if first_spec_fail is not None:
         h, (idx, v) = first_spec_fail
         key0 = v[0][0]
@@ -700,14 +726,10 @@ def run(chk):
     if not ok:
         chk.add_finding("obligation", f"proof obligations of C14 no longer check: {why}",
                         {"theorem": "Bptk.C14.Gen.holds / Bptk.Props.C14", "detail": why}, found_input=False)
-    if contract_diff is not None and first_spec_fail is None:
-        diff = contract_diff
-        hrep = hs[owner[diff]].replay() if owner[diff] is not None else None
-        chk.add_finding("correspondence", f"model and implementation disagree at protocol line {diff}: request {req[diff]!r}",
-                        {"correspondence": "Drive/C14 vs BPTK_Py.Model", "line": diff, "request_context": req[max(0, diff - 12):diff + 1],
-                         "history": hrep,
-                         "model": model[diff] if diff < len(model) else None, "impl": real[diff] if diff < len(real) else None},
-                        found_input=False)
+    if st["contract"] is not None and first_spec_fail is None:
+        d = st["contract"]
+        chk.add_finding("correspondence", f"model and implementation disagree: request {d['request']!r}",
+                        dict(d, correspondence="Drive/C14 vs BPTK_Py.Model"), found_input=False)
 
 
 def replay(path):
